@@ -3,6 +3,7 @@ mod bufsim;
 mod c13;
 mod c15;
 mod c16;
+mod c19;
 mod engine;
 mod graphs;
 mod graphsim;
@@ -34,6 +35,7 @@ fn checks() -> Vec<Box<dyn Check>> {
         Box::new(c13::HdlcCheck),
         Box::new(c15::HostileCheck),
         Box::new(c16::SourceCheck),
+        Box::new(c19::DeriveCheck),
     ]
 }
 
